@@ -583,7 +583,12 @@ func parentMain(spec *Spec, tier string, seed int64) int {
 	// known findings
 	kf := loadKnown(spec.ID)
 	exit := 0
-	os.MkdirAll(filepath.Join(VerifDir, "replays"), 0o755)
+	// runs against another checkout (seeded-change tooling) keep their replay files apart
+	replayDir := filepath.Join(VerifDir, "replays")
+	if os.Getenv("VERIF_EVIDENCE_DIR") != "" {
+		replayDir = filepath.Join(VerifDir, "replays", "alt")
+	}
+	os.MkdirAll(replayDir, 0o755)
 	sort.SliceStable(p.Viols, func(i, j int) bool { return p.Viols[i].Key < p.Viols[j].Key })
 	printedKnown := map[string]bool{}
 	printedViol := map[string]int{}
@@ -603,7 +608,7 @@ func parentMain(spec *Spec, tier string, seed int64) int {
 		}
 		printedViol[v.Key]++
 		rf := ReplayFile{Property: spec.ID, Seed: seed, Tier: tier, Shards: nsh, Shard: v.Shard, Case: v.Case, Key: v.Key, Msg: v.Msg, Detail: v.Detail}
-		path := filepath.Join(VerifDir, "replays", fmt.Sprintf("%s-s%d-%s-c%d-%s.json", spec.ID, seed, tier, v.Case, sanitize(v.Key)))
+		path := filepath.Join(replayDir, fmt.Sprintf("%s-s%d-%s-c%d-%s.json", spec.ID, seed, tier, v.Case, sanitize(v.Key)))
 		b, _ := json.MarshalIndent(rf, "", " ")
 		os.WriteFile(path, b, 0o644)
 		fmt.Printf("VIOLATION property=%s replay=%s\n", spec.ID, path)
